@@ -80,16 +80,16 @@ def reorderModelsOpt (o : MigOpts) (ms : List ModelRels) (values : List Str) (au
 /-- names of the relation constraints AutoMigrate / CreateTable reconcile for the model's own table (lines 167-179 and
     276-289: the loop sits under `!DisableForeignKeyConstraintWhenMigrating && !IgnoreRelationshipsWhenMigrating`,
     skips `IgnoreMigration` fields and keeps constraints with `constraint.Schema == stmt.Schema`) -/
-def ownedFks (t : Str) : List RelDecl → List Str
+def ownedRelFks (t : Str) : List RelDecl → List Str
   | [] => []
   | r :: rs =>
-    if r.ignoreMigration then ownedFks t rs else
+    if r.ignoreMigration then ownedRelFks t rs else
     match r.con with
-    | some (n, s, _) => if s = t then n :: ownedFks t rs else ownedFks t rs
-    | none => ownedFks t rs
+    | some (n, s, _) => if s = t then n :: ownedRelFks t rs else ownedRelFks t rs
+    | none => ownedRelFks t rs
 
 def fksOpt (o : MigOpts) (m : ModelRels) : List Str :=
-  if o.disableFK || o.ignoreRel then [] else ownedFks m.table m.rels
+  if o.disableFK || o.ignoreRel then [] else ownedRelFks m.table m.rels
 
 /-- the model declaration AutoMigrate works with under `o`: the options touch the relation constraints only — fields,
     check constraints, unique constraints and indexes are reconciled whatever they say -/
